@@ -15,8 +15,8 @@ func init() {
 	moreIntrinsics = append(moreIntrinsics, func(e *Engine) {
 		I := e.intrinsics
 		I[vrtPath+".FreshF64"] = func(e *Engine, st *State, th *Thread, fn *ssa.Function, a []Value, in *ssa.Call) Value {
-			e.nclock++
-			v := term.Var(fmt.Sprintf("rand!%d", e.nclock), term.F64)
+			th.NAlloc++
+			v := term.Var(fmt.Sprintf("rand!t%d.%d", th.ID, th.NAlloc), term.F64)
 			st.assume(term.FCmp(term.OpFLe, a[0].(*term.Term), v))
 			st.assume(term.FCmp(term.OpFLt, v, a[1].(*term.Term)))
 			return v
